@@ -11,6 +11,7 @@ from .rules import th as TH
 from .rules import misc as MI
 from .rules import mt as MT
 from .rules import scan as SC
+from .rules import ok as OK
 
 TRUST = ('trusted: the CPython parser (ast), the callee resolver of sa/model.py (receiver roles, '
          'unique method names), Python list/str/re semantics as encoded in the rules; ')
@@ -25,7 +26,7 @@ def prop(pid, rules, explanation, level, note, technique, design_ref, assumption
 
 
 prop('C01',
-     [PD.pd1, PD.pd2, PD.pd3, PD.pd4, PD.pd5, SC.pd6, MI.pd0, MI.tx1, MI.df1, EM.em1, AB.ab1, LS.ls1, LS.ls1_ml, LS.ls1_shell, AB.ab3,
+     [PD.pd1, PD.pd2, PD.pd3, PD.pd4, PD.pd5, SC.pd6, MI.pd0, MI.tx1, MI.df1, OK.ok4, EM.em1, AB.ab1, LS.ls1, LS.ls1_ml, LS.ls1_shell, AB.ab3,
       T.sp3],
      'inductive argument from static rules: tokens outside the scanner are pinned, '
      'single-character or faithful copies (PD1, PD2, SP3), pinned positions are never shifted '
@@ -82,7 +83,7 @@ prop('C04',
      'DESIGN.md 3.1, 4 C04')
 
 prop('C06',
-     [T.sp1, T.sp2, T.sp3, T.ix4, MI.pd0],
+     [T.sp1, T.sp2, T.sp3, T.ix4, MI.pd0, SC.sp4, SC.pd6],
      'static table and dispatch rules: the special-sequence table equals the documented one '
      'and contains nothing else that plain prose could hit (SP1), values are never longer '
      'than keys (SP3), longest match (SP2), tables well-formed (IX4)',
@@ -108,7 +109,7 @@ prop('C07',
      'DESIGN.md 3.6, 4 C07')
 
 prop('C08',
-     [EM.em1, EM.em2, EM.em3, AB.ab1],
+     [EM.em1, EM.em2, EM.em3, AB.ab1, OK.ok1],
      'the mark is used whole (EM1), is produced only together with a diagnostic (EM2), and '
      'recovery pushes the consumed tokens back (EM3)',
      'decides the structural clauses "complete mark", "never a mark without diagnostic", '
@@ -171,11 +172,19 @@ prop('C13',
      'DESIGN.md 3.2, 4 C13')
 
 prop('C14',
-     [LS.ls1_shell, AB.ab2, MI.oks],
-     'the concatenation of parts and the per-part offset shift stay in lock step (LS1s)',
-     'decides only the lock-step clause so far',
-     '',
-     'static analysis: symbolic affine length evaluation',
+     [OK.ok1, OK.ok2, OK.ok4, LS.ls1_shell, AB.ab2, MI.oks],
+     'the chain part offset -> total offset -> LaTeX offset -> line / column: every match of a '
+     'part is shifted once by the text accumulated before it (OK2), the accumulated text and map '
+     'stay in lock step incl. delimiter padding (LS1s), map entries are read through abs() and '
+     'converted with - 1 / last - first + 1 (OKS, OK4), indices are clamped (AB2), and the '
+     'line / column formulas of text, json, xml, xml-b and the diagnostics have the documented '
+     'normal forms (OK1, sibling agreement); sorting by LaTeX position on every path (OK2)',
+     'decides the arithmetic of the reporting chain for all matches and formats; not decided: '
+     'that the character map itself is right (C01/C02/C04), excerpt contents, HTTP behaviour',
+     'conventions (1-based text report, 0-based json/xml with exclusive tox) frozen from the '
+     'README and the statement of C14',
+     'static analysis: symbolic evaluation of the formatters to affine normal forms over '
+     'NL()/RF() atoms compared with the convention; structural typestate of the shift loop',
      'DESIGN.md 3.2, 4 C14')
 
 prop('C15',
